@@ -11,11 +11,11 @@ import ast
 from dataclasses import dataclass, field
 from typing import Any, Dict, List, Optional
 
-from ..domains import FLIP, PAULIS, Bad, Event, LogRatio, Ratio
+from ..domains import FLIP, PAULIS, Bad, Event, LogRatio, Ratio, Sym
 from ..interp import (NOT_HANDLED, TOP, BoundMethod, ClassRef, Closure, Env, Ext, Hooks, Interp, Obj, SliceV,
                       guard, site_of, truth)
 from ..model import AnalysisError, ClassInfo, Model
-from ..nphooks import elementwise, np_name
+from ..nphooks import Tagged, elementwise, np_name
 
 OTHER = {'X': 'Z', 'Z': 'X'}
 ALL = frozenset(PAULIS)
@@ -413,7 +413,15 @@ class SectorHooks(Hooks):
                 if nm in ('measure_syndrome', 'to_bsf', 'from_bsf', 'is_stabilizer', 'stabilizer_type', 'qubit_axis'):
                     return TOP
             if nm == 'probability_distribution':
+                self.log.append(('dist-args', args[0] if args else kwargs.get('code'),
+                                 args[1] if len(args) > 1 else kwargs.get('error_rate')))
                 return tuple(Event({p}) for p in PAULIS)
+        if isinstance(func, Ext) and func.name in ('builtins.min', 'builtins.max', 'builtins.round', 'builtins.abs') \
+                and any(isinstance(a, (Sym, Tagged)) for a in args):
+            # a function of the decoder's error rate that is not the identity on [0, 1]
+            return Tagged(func.name.split('.')[-1], *args)
+        if isinstance(func, Ext) and func.name == 'builtins.float' and len(args) == 1 and isinstance(args[0], Sym):
+            return args[0]
         if isinstance(func, Ext):
             last = func.name.split('.')[-1]
             if func.name.startswith('pymatching') and (last == 'Matching' or func.name.endswith('Matching.from_check_matrix')):
@@ -588,6 +596,11 @@ def analyse_get_weights(model: Model) -> List[Fact]:
     facts = []
     if len(outs) != 1 or outs[0].kind != 'return':
         raise AnalysisError('R07.5', site, f'get_weights: unexpected paths {outs!r}')
+    da = [(repr(e[1]), repr(e[2])) for e in log if e[0] == 'dist-args']
+    facts.append(Fact('get_weights', 'BaseErrorModel', 'args', site,
+                      'get_weights asks the channel for (code, error_rate) of its own arguments',
+                      da == [(repr(code), repr(Sym('error_rate')))],
+                      f'probability_distribution called with {da!r}', key='BaseErrorModel.get_weights|dist-args', facts=da))
     v = outs[0].value
     ok = isinstance(v, tuple) and len(v) == 2
     for i, sector in enumerate(('X', 'Z')):
@@ -660,6 +673,24 @@ def _judge(name, cfg, site, v, log, n_init, kw) -> List[Fact]:
                             f'merge_strategy={merge!r}: parallel edges are combined into an edge whose weight is not the '
                             f'weight of any qubit, so the matching no longer minimises the log-likelihood weight',
                             key=f'{name}|{cfg}|merge[{H!r}]', facts=repr(merge)))
+    # the channel the weights / priors are computed from is that of the decoder's own code and error rate
+    seen_da = set()
+    for ent in log:
+        if ent[0] != 'dist-args':
+            continue
+        _, code_arg, rate_arg = ent
+        k_ = (repr(code_arg), repr(rate_arg))
+        if k_ in seen_da:
+            continue
+        seen_da.add(k_)
+        ok = isinstance(code_arg, Obj) and code_arg.label == 'code' and isinstance(rate_arg, Sym) and rate_arg.name == 'error_rate'
+        if not ok and (rate_arg is TOP or code_arg is TOP):
+            raise AnalysisError('R05.3', site, f'{name} [{cfg}]: arguments of probability_distribution not tracked '
+                                               f'({code_arg!r}, {rate_arg!r})')
+        out.append(Fact('rate', name, cfg, site, f'{name} [{cfg}]: weights / priors come from the channel at the decoder\'s '
+                                                 f'own code and error rate', ok,
+                        f'probability_distribution is asked for ({code_arg!r}, {rate_arg!r}); the decoder was constructed '
+                        f'with (code, error_rate)', key=f'{name}|{cfg}|rate[{rate_arg!r}]', facts=repr(rate_arg)))
     # O2 syndrome parts / O3 priors
     for kind, s, arg in log:
         if kind == 'decode' and s.kind == 'Support':
